@@ -120,12 +120,14 @@ pub fn run(sx: &Sx) -> Vec<String> {
 }
 
 /// one render; also returns the number of live reactive nodes seen when the view function starts
-pub fn run_one(mode: &str, view: &Sx, sched: &Sx) -> (Vec<String>, usize) {
+pub fn run_one(mode: &str, view: &Sx, sched: &Sx) -> (Vec<String>, usize, (u32, u32)) {
     let mode = mode.to_string();
     let view = parse(view);
     let schedule: Vec<u32> = sched.list().iter().map(|g| g.num()).collect();
     let count = Rc::new(std::cell::Cell::new(0usize));
     let (c1, c2, c3) = (count.clone(), count.clone(), count.clone());
+    let stable = Rc::new(std::cell::Cell::new((0u32, 0u32)));
+    let (s1, s2, s3) = (stable.clone(), stable.clone(), stable.clone());
     let mut ids = Vec::new();
     gates_of(&view, &mut ids);
     let mut senders: HashMap<u32, oneshot::Sender<()>> = HashMap::new();
@@ -140,6 +142,7 @@ pub fn run_one(mode: &str, view: &Sx, sched: &Sx) -> (Vec<String>, usize) {
         "sync" => {
             let s = render_to_string(move || {
                 c1.set(sycamore_reactive::verif::node_count());
+                s1.set((use_stable_counter(), use_stable_counter()));
                 build(&view, &gates)
             });
             out.push(format!("sync {}", hex(&s)));
@@ -150,6 +153,7 @@ pub fn run_one(mode: &str, view: &Sx, sched: &Sx) -> (Vec<String>, usize) {
             local.block_on(&rt, async {
                 let fut = render_to_string_await_suspense(move || {
                     c2.set(sycamore_reactive::verif::node_count());
+                    s2.set((use_stable_counter(), use_stable_counter()));
                     build(&view, &gates)
                 });
                 futures::pin_mut!(fut);
@@ -187,6 +191,7 @@ pub fn run_one(mode: &str, view: &Sx, sched: &Sx) -> (Vec<String>, usize) {
             local.block_on(&rt, async {
                 let stream = render_to_string_stream(move || {
                     c3.set(sycamore_reactive::verif::node_count());
+                    s3.set((use_stable_counter(), use_stable_counter()));
                     build(&view, &gates)
                 });
                 let mut stream = Box::pin(stream);
@@ -216,5 +221,5 @@ pub fn run_one(mode: &str, view: &Sx, sched: &Sx) -> (Vec<String>, usize) {
         }
         m => panic!("unsupported mode {m}"),
     }
-    (out, count.get())
+    (out, count.get(), stable.get())
 }
